@@ -8,7 +8,8 @@ creates; plus the (known-unprotected) expansion boundaries.
 from ..interp import NoReturn, Infeasible, NeedChoice, Ctx, Interp, Obj, Sym, View, Cell, Term, Arr, VarPlace, ElemPlace, _Ref, _Continue, _Break, _Return, is_opaque
 from ..build import AnalysisBroken
 from ..lib_c09 import PInterp, Agg, as_obj, chain, mk_tokens, mk_hideset, strip_ids, PARAM, OTHER, cls_of
-from ..lib_c09x import Desc, show, explore_expand, explore_subst, SubstPath, explore_subst_shared
+from ..lib_c09x import (Desc, show, explore_expand, explore_subst, SubstPath, explore_subst_shared, explore_skip_arms, cut_new_token_flags,
+                        creator_summaries, describe_flag, CREATORS)
 
 PU = 'preprocess.c'
 TU = 'tokenize.c'
@@ -220,49 +221,6 @@ def r_join(P, rep):
 
 
 # --------------------------------------------------------------------- tokenize ---
-def _explore_stmt(it, unit, stmt, make_env, max_paths=4000):
-    """explore one statement in isolation: [(ctx, how)] with how in 'fall'|'continue'|'break'|'return'|('noreturn', fn)"""
-    out = []
-    stack = [[]]
-    while stack:
-        dec = stack.pop()
-        ctx = Ctx(dec)
-        it.ctx = ctx
-        it.unit = unit
-        try:
-            env = make_env(ctx)
-            try:
-                it.exec(stmt, env)
-                how = 'fall'
-            except _Continue:
-                how = 'continue'
-            except _Break:
-                how = 'break'
-            except _Return:
-                how = 'return'
-            ctx.env = env
-            out.append((ctx, how))
-        except NeedChoice as e:
-            for a in range(e.n - 1, -1, -1):
-                stack.append(dec + [a])
-        except Infeasible:
-            pass
-        except NoReturn as e:
-            out.append((ctx, ('noreturn', e.fn)))
-        if len(out) + len(stack) > max_paths:
-            raise AnalysisBroken('path explosion in a statement of tokenize (line %d)' % stmt.line)
-    return out
-
-
-def _assigns_var(stmt, var_id):
-    for n in stmt.walk():
-        if n.kind in ('BinaryOperator', 'CompoundAssignOperator') and n.opcode and n.opcode.endswith('=') and n.opcode not in ('==', '!=', '<=', '>='):
-            l = n.inner[0].strip()
-            if l.kind == 'DeclRefExpr' and l.ref_id == var_id:
-                return True
-    return False
-
-
 def r_tokenize(P, rep):
     u = P.unit(TU)
     for f in ('tokenize', 'new_token'):
@@ -300,14 +258,7 @@ def r_tokenize(P, rep):
     fn = u.fn('tokenize')
     where = '%s:%d' % (TU, fn.line)
 
-    def cut_new_token(it_, ctx, n_, args):
-        g = ctx.globals
-        snap = tuple(it_.settle(g.get(f)) if f in g else None for f in FLAGS)
-        res = Obj('Token', lazy=True, label=ctx.fresh('token'))
-        ctx.emit('call', 'new_token', args, n_.line, res, snap)
-        g['at_bol'] = 0
-        g['has_space'] = 0
-        return res
+    cut_new_token = cut_new_token_flags
 
     it2 = PInterp(P, u, {'cut': {'new_token': cut_new_token}, 'opaque': ['add_line_numbers', 'convert_pp_tokens'], 'loop_limit': 0})
 
@@ -329,63 +280,30 @@ def r_tokenize(P, rep):
             A.ob('R19.2', '%s:tokenize:buffer-starts-at-bol' % TU, len(nt) == 1 and nt[0][5][0] == 1 and nt[0][5][1] == 0,
                  'the first token of a buffer is created with (at_bol, has_space) = %r instead of (true, false): the first directive of a file is not recognised / the first token carries a stale flag' % (nt[0][5] if nt else None,), where)
     # -- tokenize: skip arms
-    loops = [w for w in fn.walk() if w.kind == 'WhileStmt']
-    locals_ = [d for d in fn.walk() if d.kind == 'VarDecl' and d.enclosing('WhileStmt') is None and d.enclosing('ForStmt') is None]
-    # list cursor(s): locals of type Token * ; scan pointer: the char * local initialised from file->contents
-    cur_decl = [d for d in locals_ if (d.type or '').replace(' ', '') == 'Token*']
-    pvar = [d for d in locals_ if (d.type or '').replace(' ', '') == 'char*' and any(m.kind == 'MemberExpr' and m.name == 'contents' for m in d.walk())]
-    if not loops or not cur_decl or len(pvar) != 1:
-        raise AnalysisBroken('tokenize: main loop / list cursor / scan pointer not found')
-    loop = loops[0]
-    body = loop.inner[1]
-    stmts = body.inner if body.kind == 'CompoundStmt' else [body]
-    cur_ids, p_id = set(d.id for d in cur_decl), pvar[0].id
-    it3 = PInterp(P, u, {'opaque': ['startswith', 'strstr', 'isspace', 'isdigit', 'isalnum', 'strchr', 'read_ident', 'read_punct'],
-                         'cut': {'new_token': cut_new_token}, 'loop_limit': 1})
+    arms, problems = explore_skip_arms(P, u)
+    for line, text in problems:
+        rep.undecided('R19.2', '%s:tokenize:skip-arm-not-followed' % TU, 'a statement of the tokenizer loop cannot be followed: %s' % text, where='%s:%d' % (TU, line))
     nskip = {}
-    for st in stmts:
-        if any(_assigns_var(st, c) for c in cur_ids) or st.calls('new_token'):
-            continue        # creates a token
-        for init in ((0, 0), (1, 0), (1, 1)):
-            def mkenv(ctx, init=init):
-                env = {}
-                for d in locals_:
-                    env[d.id] = Sym(d.name or 'local', d.type)
-                env[p_id] = Sym('p', 'char *')
-                ctx.globals['at_bol'] = init[0]
-                ctx.globals['has_space'] = init[1]
-                return env
-            try:
-                paths = _explore_stmt(it3, u, st, mkenv)
-            except AnalysisBroken as e:
-                rep.undecided('R19.2', '%s:tokenize:skip-arm-not-followed' % TU, 'a statement of the tokenizer loop cannot be followed: %s' % e, where='%s:%d' % (TU, st.line))
-                continue
-            for ctx, how in paths:
-                if isinstance(how, tuple):
-                    continue
-                pv = ctx.env.get(p_id)
-                moved = not (isinstance(pv, Sym) and pv.name == 'p')
-                if not moved:
-                    continue
-                if how not in ('continue',):
-                    continue
-                kind = _arm_kind(ctx)
-                ab, hs = it3.settle(ctx.globals.get('at_bol')), it3.settle(ctx.globals.get('has_space'))
-                facts = {'path': ctx.trail, 'initial (at_bol, has_space)': init, 'final': (ab, hs)}
-                w = '%s:%d' % (TU, st.line)
-                nskip[kind] = nskip.get(kind, 0) + 1
-                if init == (0, 0):
-                    A.ob('R19.2', '%s:tokenize:%s-is-white-space' % (TU, kind), (isinstance(ab, int) and ab == 1) or (isinstance(hs, int) and hs == 1),
-                         'input is skipped (%s) without recording a separator: the token after it is printed glued to the token before it (`a+/**/++b` -> `a+++b`)' % kind, w, facts)
-                    if kind == 'newline':
-                        A.ob('R19.2', '%s:tokenize:newline-sets-at_bol' % TU, isinstance(ab, int) and ab == 1,
-                             'a newline is skipped without setting at_bol: directives on the next line are not recognised and -E joins the lines', w, facts)
-                    else:
-                        A.ob('R19.2', '%s:tokenize:%s-does-not-start-a-line' % (TU, kind), isinstance(ab, int) and ab == 0,
-                             '%s sets at_bol although no newline was consumed: `#` after it would be taken for a directive' % kind, w, facts)
-                elif init[0] == 1 and kind != 'newline':
-                    A.ob('R19.2', '%s:tokenize:%s-keeps-at_bol' % (TU, kind), isinstance(ab, int) and ab == 1,
-                         '%s at the beginning of a line clears at_bol: an indented or commented `#directive` is no longer recognised' % kind, w, facts)
+    for arm in arms:
+        kind, init, (ab, hs) = arm['kind'], arm['init'], arm['final']
+        facts = {'path': arm['trail'], 'initial (at_bol, has_space)': init, 'final': (ab, hs)}
+        w = '%s:%d' % (TU, arm['line'])
+        nskip[kind] = nskip.get(kind, 0) + 1
+        if init == (0, 0):
+            A.ob('R19.2', '%s:tokenize:%s-is-white-space' % (TU, kind), (isinstance(ab, int) and ab == 1) or (isinstance(hs, int) and hs == 1),
+                 'input is skipped (%s) without recording a separator: the token after it is printed glued to the token before it (`a+/**/++b` -> `a+++b`)' % kind, w, facts)
+            if kind == 'newline':
+                A.ob('R19.2', '%s:tokenize:newline-sets-at_bol' % TU, isinstance(ab, int) and ab == 1,
+                     'a newline is skipped without setting at_bol: directives on the next line are not recognised and -E joins the lines', w, facts)
+            else:
+                A.ob('R19.2', '%s:tokenize:%s-does-not-start-a-line' % (TU, kind), isinstance(ab, int) and ab == 0,
+                     '%s sets at_bol although no newline was consumed: `#` after it would be taken for a directive' % kind, w, facts)
+        elif init[0] == 1 and kind != 'newline':
+            A.ob('R19.2', '%s:tokenize:%s-keeps-at_bol' % (TU, kind), isinstance(ab, int) and ab == 1,
+                 '%s at the beginning of a line clears at_bol: an indented or commented `#directive` is no longer recognised' % kind, w, facts)
+        elif init == (0, 1) and kind != 'newline':
+            A.ob('R19.2', '%s:tokenize:%s-keeps-has_space' % (TU, kind), isinstance(hs, int) and hs == 1,
+                 '%s after other white space clears has_space: `a /**/+b` is printed `a+b`' % kind, w, facts)
     # -- tokenize_string_literal: the re-encoded literal stands for the original token
     if 'tokenize_string_literal' in u.functions:
         it4 = PInterp(P, u, {'opaque': ['read_utf16_string_literal', 'read_utf32_string_literal'], 'track_stores': True})
@@ -408,25 +326,6 @@ def r_tokenize(P, rep):
     for k in ('blank', 'newline', 'line-comment', 'block-comment'):
         if not nskip.get(k):
             rep.undecided('R19.2', '%s:tokenize:no-%s-arm' % (TU, k), 'the %s-skipping arm of tokenize was not recognised' % k, where=where)
-
-
-def _arm_kind(ctx):
-    """name of a skipping arm from what it tested (semantic literals only)"""
-    for e in ctx.events:
-        if e[0] == 'call' and e[1] == 'startswith' and len(e[2]) == 2 and isinstance(e[2][1], str):
-            r = e[4]
-            v = r.cell.cands if isinstance(r, View) else None
-            if v == [1]:
-                return {'//': 'line-comment', '/*': 'block-comment'}.get(e[2][1], 'skip(%s)' % e[2][1])
-    for k, v in ctx.bounds.items():
-        if v[0] == v[1] == 10:
-            return 'newline'
-    for e in ctx.events:
-        if e[0] == 'call' and e[1] == 'isspace':
-            return 'blank'
-    if any('_ISspace' in repr(k) for k in ctx.facts):      # glibc: isspace() is a table lookup masked with _ISspace
-        return 'blank'
-    return 'skip'
 
 
 # ------------------------------------------------------------------- copy_token ---
@@ -549,6 +448,15 @@ def r_expand(P, rep, protect):
         else:
             rep.ob('R19.2', '%s:%s:returns-fresh-tokenisation' % (PU, f), all(oks),
                    '%s no longer returns a token straight from %s..): the assumption "created tokens start with at_bol=true/has_space=false" does not hold' % (f, want), where='%s:%d' % (PU, u.fn(f).line))
+    # what the creators leave in the two flags of the token they return (the explorations of expand_macro and subst use exactly this)
+    summ = creator_summaries(P, u)
+    for f in CREATORS:
+        for g in FLAGS:
+            d = summ[f][g]
+            if d[0] == 'other':
+                rep.undecided('R19.2', '%s:%s:created-token-%s' % (PU, f, g), '%s writes %s of the token it creates with a value the rule cannot attribute (%s)' % (f, g, d[1]), where='%s:%d' % (PU, u.fn(f).line))
+            else:
+                rep.ob('R19.2', '%s:%s:created-token-%s' % (PU, f, g), True, '', where='%s:%d' % (PU, u.fn(f).line), facts={'flag': describe_flag(f, g, d)})
     hs = set()
     for c in u.fn('init_macros').calls('add_builtin'):
         a = c.args()
@@ -574,7 +482,7 @@ def r_subst(P, rep, protect):
     fn = 'subst'
     it, paths, classes = explore_subst(P, u)
     A = Agg(rep)
-    seen = {'arg-first': 0, 'arg-second': 0, 'stringized': 0, 'pasted': 0, 'paste-lhs-argument-first-token': 0, 'paste-empty-lhs-result': 0}
+    seen = {'arg-first': 0, 'arg-second': 0, 'stringized': 0, 'pasted': 0, 'paste-lhs-argument-first-token': 0, 'paste-empty-lhs-result': 0, 'pasted-token-for-parameter': 0}
     w0 = '%s:%d' % (PU, u.fn(fn).line)
     for ctx, out in paths:
         if out[0] != 'ret':
@@ -669,6 +577,20 @@ def r_subst(P, rep, protect):
                 fa = it.settle(L.fields.get('at_bol'))
                 A.ob('R19.2', '%s:%s:pasted-token-at_bol' % (PU, fn), _same_view(L.fields.get('at_bol'), bf['at_bol']) or fa == 1,
                      'the token made by ## has at_bol %r' % (fa,), where, facts)
+                # the pasted token may itself be the first token standing for a PARAMETER of the replacement list (the left
+                # operand was the copy of a one-token argument): it is then the only carrier of the separator that the
+                # parameter token had in the body, while the flags it was built from are those of the argument as written
+                # inside the invocation
+                srcL = z.meta.get('lhs_copy_of')
+                if srcL is not None and id(srcL) in sp.raw and sp.raw[id(srcL)][1] == 0:
+                    T = sp.raw[id(srcL)][0]
+                    seen['pasted-token-for-parameter'] += 1
+                    sts = {f: _flag_state(it, L, T, f) for f in FLAGS}
+                    summ = z.meta.get('flag_summary') or {}
+                    how = '; '.join('%s is %s' % (f, describe_flag('paste', f, summ.get(f, ('fresh',)))) for f in FLAGS)
+                    A.ob('R19.2', '%s:%s:pasted-token-for-parameter-separator' % (PU, fn), sts['has_space'] == 'inherited' or sts['at_bol'] == 'true',
+                         'the token pasted from a one-token argument (`x ## ...` with x a parameter that is not first in the replacement list) is written with neither the white space of the parameter token nor a line break: its at_bol is %s and its has_space is %s, i.e. the spacing the argument had inside the invocation (none after `(` or `,`) - `#define RET(n) return n##_val` / `RET(foo)` is printed `returnfoo_val` (in paste: %s)' % (
+                             {'other': 'that of the argument token'}.get(sts['at_bol'], sts['at_bol']), {'other': 'that of the argument token'}.get(sts['has_space'], sts['has_space']), how), where, facts)
     A.flush()
     for k, v in seen.items():
         if v == 0:
